@@ -2,7 +2,7 @@
 (* Bounded model for C44: four markets over three tokens (M1, M2: A/B sharing both vaults; M3: C/B;
    MP: single-token B), ALL swap paths of length 0..MaxLen, every input token, three uses of a path:
    a MarketSwap order whose market is `cur` ("order"), the long side of a deposit into `cur` paid in
-   `tin` ("into"), the long side of a withdrawal from `cur` swapped to `tin` ("from").
+   `tin` ("into"), the long / short side of a withdrawal from `cur` swapped to `tin` ("from" / "from2").
    Each case is one initial state; for "order" and "into" the design-level execution (SwapPath.tla,
    hops on the funded Vaults state) is performed and the C44 monitors are checked on the resulting
    event, so that the monitors are calibrated on the design before they judge code.  Every case is
@@ -28,7 +28,7 @@ Funded ==
 
 VP == INSTANCE VaultsProps
 VARIABLE c    \* the case: [dir, cur, path, tin, x]
-Init == c \in [dir : {"order", "into", "from"}, cur : Ms, path : Paths, tin : Ts, x : {3}]
+Init == c \in [dir : {"order", "into", "from", "from2"}, cur : Ms, path : Paths, tin : Ts, x : {3}]
 Next == UNCHANGED c
 
 (* the event the design produces for a case *)
@@ -56,13 +56,14 @@ Ev == IF c.dir = "order" THEN OrderEvent ELSE IntoEvent
 (* a case that cannot be created has duplicates, a no-op step or an inconsistent walk; one that is
    created but not executable has the current market in the middle *)
 InvMonitors ==
-  c.dir # "from" =>
+  c.dir \notin {"from", "from2"} =>
     LET v == Ev IN
     /\ (Bad(v.e) => ~v.created)
-    /\ MonDeclared(v.e) /\ MonRejectExec(v.e) /\ MonHopBalances(v.e) /\ MonVaultTotals(v.e)
+    /\ ((Bad(v.e) \/ WrongEnd(v.e)) => ~v.created)
+    /\ MonDeclared(v.e) /\ MonRejectExec(v.e) /\ MonHopBalances(v.e) /\ MonVaultTotals(v.e) /\ MonPaidDeclared(v.e)
     /\ (v.e.astate = "completed" => VP!Solvent(v.e.post, Meta))
 (* vacuity guards: both outcomes occur *)
 Emit == PrintT("T|" \o ToJson([dir |-> c.dir, cur |-> c.cur, path |-> c.path, tin |-> c.tin,
-                               created |-> IF c.dir = "from" THEN TRUE ELSE Ev.created,
-                               executed |-> IF c.dir = "from" THEN TRUE ELSE Ev.e.astate = "completed"]))
+                               created |-> IF c.dir \in {"from", "from2"} THEN TRUE ELSE Ev.created,
+                               executed |-> IF c.dir \in {"from", "from2"} THEN TRUE ELSE Ev.e.astate = "completed"]))
 =============================================================================
